@@ -88,6 +88,15 @@ Begin(c) ==
     /\ stored' = IF c.cleanup THEN {} ELSE stored
     /\ UNCHANGED <<d, inp>>
 
+(* a new run with OTHER inputs is legitimate on a cleaned folder (the cache object of the pipeline survives: cfg.memo) *)
+BeginWith(c, newinp) ==
+    /\ phase = "idle" /\ c.cleanup
+    /\ ValidMapRequestF(d, newinp, c.F)
+    /\ phase' = "running" /\ cfg' = c /\ inp' = newinp
+    /\ den' = MapDenoteF(d, newinp, c.F)
+    /\ called' = {} /\ done' = {} /\ failed' = {} /\ stored' = {}
+    /\ UNCHANGED d
+
 (* InputsComplete + ExactlyOnce + NoRecompute + NoLaterGeneration are the enabling condition *)
 Call(i, t, kwargs) ==
     /\ phase = "running"
